@@ -282,6 +282,7 @@ var acceptedUnbound = map[string]string{
 	"io.Writer.Write":             "write to the user-supplied stderr writer; best effort by contract",
 	"net/rpc.Server.RegisterName": "registration of a module-defined receiver whose method set is fixed at compile time (R-RPCNAME checks the shape)",
 	"os.RemoveAll":                "best-effort cleanup of the temp directory",
+	"syscall.CloseHandle":         "best-effort close of a process handle (windows); nothing can be done with the error",
 	modPath + "/internal/plugin.GRPCControllerClient.Shutdown": "graceful-stop request; Kill force-kills afterwards regardless of the answer",
 	modPath + "/runner.AttachedRunner.Wait":                    "reattached process wait; only the fact of exit matters",
 	"fmt.Fprintf":                                              "diagnostic to stderr",
